@@ -190,9 +190,5 @@ def body(check):
     check.guarded("SRC-STORE", "modelphy", lambda: src_store(check, proj))
     check.guarded("NOZ-COMPOSE", "euler.nozzle", lambda: noz_compose(check, proj))
     check.guarded("NOZ-GEOM", "euler.nozzle", lambda: noz_geom(check, proj))
-    try:
-        from ..units import check_source_units
-    except ImportError:
-        check_source_units = None
-    if check_source_units is not None:
-        check_source_units(check, "UNIT-HOMOG")
+    from ..units import check_source_units
+    check_source_units(check, "UNIT-HOMOG")
